@@ -134,8 +134,8 @@ def main():
         sys.exit(c.finish())
     budget = float(os.environ.get("VERIF_BUDGET_S", "780" if thorough else "55"))
     schedules = 25 if thorough else 8
-    floor_pairs = 300 if thorough else 30
-    pairs_per_round = 2 * vlib.NPROC if not thorough else 4 * vlib.NPROC
+    floor_pairs = 300 if thorough else 16
+    pairs_per_round = vlib.NPROC if not thorough else 4 * vlib.NPROC
     rnd = 0
     all_records = []
     n_pairs = 0
